@@ -21,7 +21,7 @@ def gen_cases(ctx):
     rng = ctx.rng
     quick = ctx.tier == "quick"
     cases = []
-    nsch = 12 if quick else 60
+    nsch = 9 if quick else 60
     for si in range(nsch):
         sch = g.gen_schema(rng)
         st = sch.text()
